@@ -78,7 +78,7 @@ def zipf_pick(keys: list, skew: float = 1.1):
 def _gen_mm1(rng):
     return {"arrival": rng.choice(["poisson", "constant"]), "rate": rng.choice([40.0, 80.0, 150.0]),
             "service": rng.choice(["exp", "const"]), "mean_ms": rng.choice([5.0, 10.0, 20.0]),
-            "conc": rng.choice([1, 2, 4]), "qcap": rng.choice([None, 5, 50]), "horizon": rng.choice([2.0, 4.0])}
+            "conc": rng.choice([1, 2, 4]), "qcap": rng.choice([None, 5, 50]), "horizon": rng.choice([1.5, 3.0])}
 
 
 @model("mm1", "sources-servers", _gen_mm1)
@@ -348,7 +348,11 @@ def _submitter(nodes, p, leader_of, submit):
             if ld is None:
                 state["no_leader"] += 1
             else:
-                state["futures"].append(submit(ld, {"op": "set", "key": f"key:{state['i'] % 4}", "value": state["i"]}))
+                res = submit(ld, {"op": "set", "key": f"key:{state['i'] % 4}", "value": state["i"]})
+                if isinstance(res, tuple):           # (future, events to schedule)
+                    out.extend(res[1] or [])
+                    res = res[0]
+                state["futures"].append(res)
                 state["i"] += 1
             out.append(Event(time=self.now + 0.1 + random.random() * 0.05, event_type="ClientTick", target=self))
         return out
@@ -459,8 +463,12 @@ def _log_cluster(cls_name, p, seed, **kw):
         nd.set_peers(nodes)
     _mesh(net, nodes, p["link"], mixed=LINKS if p["mixed"] else None)
     start = _start_all(nodes[:1]) + _start_all(nodes[1:2], t=0.5)      # a second node campaigns later
-    client, cstate = _submitter(nodes, p, lambda: next((n for n in nodes if n.is_leader), None),
-                                lambda ld, cmd: ld.submit(cmd))
+    def submit(ld, cmd):
+        # as examples/distributed/flexible_paxos_quorums.py drives it: submit, then replicate the newly assigned slot
+        fut = ld.submit(cmd)
+        return fut, ld._replicate_slot(ld.log.last_index)
+
+    client, cstate = _submitter(nodes, p, lambda: next((n for n in nodes if n.is_leader), None), submit)
     first = Event(time=at(0.3), event_type="ClientTick", target=client)
     faults = _partition_events(net, nodes, p, p["horizon"] * 0.4, p["horizon"] * 0.6)
     sim = Simulation(entities=[net, *nodes, client], duration=p["horizon"])
@@ -716,7 +724,7 @@ def _mk_eviction(kind, seed, clock_s):
 
 
 def _gen_cached(rng):
-    return {"policy": rng.choice(EVICTION), "cap": rng.choice([4, 8, 16]), "write_back": rng.random() < 0.4,
+    return {"policy": rng.choice(EVICTION), "cap": rng.choice([4, 8, 16]), "write_back": rng.random() < 0.5,
             "clients": rng.choice([1, 2, 3]), "ops": rng.choice([80, 140]), "keys": rng.choice([24, 60]),
             "backing_cap": rng.choice([None, None, 20])}
 
@@ -783,7 +791,6 @@ def build_soft_ttl(p, seed):
     def stats(s):
         s.add("cache", cache.stats)
         s.probe("softttl_stale_hit_refresh", cache.stats.background_refreshes > 0)
-        s.probe("softttl_coalesced", cache.stats.coalesced_requests > 0)
         s.add("cache.cached_keys", cache.get_cached_keys())
         s.add("backing", backing.stats)
         _client_stats(s, clients)
@@ -811,8 +818,17 @@ def build_multi_tier(p, seed):
     l2 = CachedStore("L2", backing, p["cap2"], _mk_eviction(p["l2"], seed + 1, clock), cache_read_latency=0.001)
     cache = MultiTierCache("cache", [l1, l2], backing, promotion_policy=p["promo"])
     clients = [KVClient(f"client-{i}", cache, keys, p["ops"], mix=(0.75, 0.2, 0.05)) for i in range(p["clients"])]
-    sim = Simulation(entities=[backing, l1, l2, cache, *clients])
-    _start_clients(sim, clients)
+
+    def warm(self, ev):
+        # MultiTierCache itself only ever fills L1; the user warms L2 through its public API so that promotion can happen
+        for i, k in enumerate(keys[: p["cap2"]]):
+            yield from l2.put(k, f"init#{i}")
+        return None
+
+    warmer = Proc("warmer", warm)
+    sim = Simulation(entities=[backing, l1, l2, cache, warmer, *clients])
+    sim.schedule(Event(time=at(0.0), event_type="Warm", target=warmer))
+    _start_clients(sim, clients, stagger=0.0007)
 
     def stats(s):
         s.add("cache", cache.stats)
@@ -1120,7 +1136,7 @@ def build_crdt_store(p, seed):
 def _gen_mq(rng):
     return {"consumers": rng.choice([1, 2, 4]), "msgs": rng.choice([40, 90]), "reject_p": rng.choice([0.0, 0.15, 0.4]),
             "silent_p": rng.choice([0.0, 0.1]), "max_redeliveries": rng.choice([1, 3]), "dlq": rng.random() < 0.7,
-            "capacity": rng.choice([None, None, 30]), "latency": rng.choice([0.001, 0.004])}
+            "capacity": rng.choice([None, 2, 8]), "latency": rng.choice([0.001, 0.004])}
 
 
 @model("message_queue", "messaging", _gen_mq)
@@ -1546,7 +1562,7 @@ def build_sketch_others(p, seed):
 # ===========================================================================
 
 def _gen_industrial(rng):
-    return {"rate": rng.choice([20.0, 40.0]), "horizon": rng.choice([8.0, 12.0]), "pass_rate": rng.choice([0.7, 0.9]),
+    return {"rate": rng.choice([20.0, 40.0]), "horizon": rng.choice([6.0, 9.0]), "pass_rate": rng.choice([0.7, 0.9]),
             "no_show": rng.choice([0.1, 0.3]), "mttf": rng.choice([1.0, 3.0]), "balk": rng.choice([2, 5]), "batch": rng.choice([3, 6])}
 
 
@@ -1707,17 +1723,22 @@ def build_prebuilt(p, seed):
 
 def _gen_client(rng):
     return {"retry": rng.choice(["none", "fixed", "expo_jitter", "decorrelated"]), "rate": rng.choice([40.0, 80.0]),
-            "timeout": rng.choice([0.02, 0.05]), "mean_ms": rng.choice([10.0, 25.0]), "horizon": 2.0}
+            "timeout": rng.choice([0.015, 0.04]), "mean_ms": rng.choice([10.0, 25.0]), "horizon": 2.0}
 
 
 @model("client_retry", "clients", _gen_client)
 def build_client_retry(p, seed):
     from happysimulator.components.client.client import Client
     from happysimulator.components.client.retry import DecorrelatedJitter, ExponentialBackoff, FixedRetry, NoRetry
-    from happysimulator.components.server.server import Server
-    from happysimulator.distributions.exponential import ExponentialLatency
 
-    server = Server("server", concurrency=2, service_time=ExponentialLatency(p["mean_ms"] / 1e3), queue_capacity=20)
+    # the request's completion hook answers the client; a QueuedResource completes the request when it is *enqueued*, so the
+    # backend here is a plain generator entity (service time drawn from module random), as in the Client docstring
+    def serve(self, ev):
+        yield random.expovariate(1e3 / p["mean_ms"])
+        self.served = getattr(self, "served", 0) + 1
+        return None
+
+    server = Proc("server", serve)
     pol = {"none": NoRetry, "fixed": lambda: FixedRetry(max_attempts=3, delay=0.01),
            "expo_jitter": lambda: ExponentialBackoff(max_attempts=4, initial_delay=0.005, max_delay=0.1, jitter=0.01),
            "decorrelated": lambda: DecorrelatedJitter(max_attempts=4, base_delay=0.005, max_delay=0.1)}[p["retry"]]()
@@ -1739,7 +1760,7 @@ def build_client_retry(p, seed):
         s.probe("client_timeout", client.stats.timeouts > 0)
         s.add("client.avg_rt", client.average_response_time)
         s.add("outcomes", outcomes)
-        s.add("server", server.stats)
+        s.add("server.served", getattr(server, "served", 0))
     return sim, stats
 
 
